@@ -14,9 +14,10 @@ class Unsupported(Exception):
 
 PRIM_T = {"t_add", "t_mul", "t_smul", "t_sadd"}          # kernel primitives returning a tensor
 
-# logic._norm is mapped to "the Frobenius norm" by an argument outside the translator's grammar (clone, orthogonalize(0),
-# norm of the first core with its factor absorbed): the mapping is used only for exactly this body
-NORM_BODY = ("t = t.clone()\nt.orthogonalize(0)\ncore = t.cores[0]\nif t.Us[0] is not None:\n"
+# logic._norm is mapped to "the Frobenius norm" by an argument outside the translator's grammar (ordinary tensors only, clone,
+# orthogonalize(0), norm of the first core with its factor absorbed): the mapping is used only for exactly this body
+NORM_BODY = ("if t.batch:\n    raise ValueError('Batched tensors are not supported.')\n"
+             "t = t.clone()\nt.orthogonalize(0)\ncore = t.cores[0]\nif t.Us[0] is not None:\n"
              "    core = torch.einsum('ijk,aj->iak', (core, t.Us[0]))\nreturn torch.norm(core)")
 NORM_BODY_OK = {}
 
@@ -393,6 +394,13 @@ class Tr:
                 continue                      # both operands compressed: _process is the identity
             if isinstance(s, ast.Assert):
                 continue                      # a precondition: a premise of the theorems about this variant
+            if isinstance(s, ast.If) and not s.orelse and ast.unparse(s.test).startswith("isinstance(") \
+                    and ast.unparse(s.test).endswith(", np.generic)") and len(s.body) == 1 \
+                    and isinstance(s.body[0], ast.Assign) and len(s.body[0].targets) == 1 \
+                    and isinstance(s.body[0].targets[0], ast.Name) \
+                    and ast.unparse(s.test) == "isinstance(%s, np.generic)" % s.body[0].targets[0].id \
+                    and ast.unparse(s.body[0].value) == "%s.item()" % s.body[0].targets[0].id:
+                continue                      # `if isinstance(x, np.generic): x = x.item()`: the same number as a Python scalar
             if isinstance(s, ast.If) and not s.orelse and len(s.body) == 1 and isinstance(s.body[0], ast.Raise) \
                     and isinstance(s.test, ast.Attribute) and s.test.attr == "batch" and isinstance(s.test.value, ast.Name) \
                     and self.ty.get(s.test.value.id) == "T":
